@@ -5,6 +5,7 @@ package check
 
 import (
 	"context"
+	"sync/atomic"
 
 	"github.com/pkg/errors"
 
@@ -31,6 +32,31 @@ func toTreeNodeType(op ast.Operator) ketoapi.TreeNodeType {
 	}
 }
 
+// A cutTracker records whether a check below a negation was cut short by the
+// depth or width limit. Such a check reports "not a member" for what is in
+// fact unknown, which must not be inverted into "is a member".
+type cutTrackerKey struct{}
+
+func withCutTracker(ctx context.Context) (context.Context, *atomic.Bool) {
+	cut := new(atomic.Bool)
+	return context.WithValue(ctx, cutTrackerKey{}, cut), cut
+}
+
+// markCut tells the innermost enclosing negation, if any, that the check was
+// cut short.
+func markCut(ctx context.Context) {
+	if cut, ok := ctx.Value(cutTrackerKey{}).(*atomic.Bool); ok {
+		cut.Store(true)
+	}
+}
+
+// cutShort is the check for everything beyond the depth limit: the membership
+// is unknown.
+func cutShort(ctx context.Context, resultCh chan<- checkgroup.Result) {
+	markCut(ctx)
+	checkgroup.UnknownMemberFunc(ctx, resultCh)
+}
+
 // withFreshVisited runs f with its own, empty visited set (see
 // graph.ResetVisited).
 func withFreshVisited(f checkgroup.CheckFunc) checkgroup.CheckFunc {
@@ -47,7 +73,7 @@ func (e *Engine) checkSubjectSetRewrite(
 ) checkgroup.CheckFunc {
 	if restDepth <= 0 {
 		e.d.Logger().Debug("reached max-depth, therefore this query will not be further expanded")
-		return checkgroup.UnknownMemberFunc
+		return cutShort
 	}
 
 	e.d.Logger().
@@ -157,12 +183,12 @@ func (e *Engine) checkInverted(
 ) checkgroup.CheckFunc {
 	if restDepth < 0 {
 		e.d.Logger().Debug("reached max-depth, therefore this query will not be further expanded")
-		return checkgroup.UnknownMemberFunc
+		return cutShort
 	}
 
 	// A negated expression must not skip a subject set because some other
 	// branch of the check already visited it: it gets its own visited set.
-	ctx = graph.ResetVisited(ctx)
+	ctx, cut := withCutTracker(graph.ResetVisited(ctx))
 
 	e.d.Logger().
 		WithField("request", tuple.String()).
@@ -206,12 +232,19 @@ func (e *Engine) checkInverted(
 		// buffered, so that the inner check can exit if the context is
 		// cancelled before its result is received
 		innerCh := make(chan checkgroup.Result, 1)
-		go check(ctx, innerCh)
+		go check(context.WithValue(ctx, cutTrackerKey{}, cut), innerCh)
 		select {
 		case result := <-innerCh:
 			// a failed sub-check has no membership that could be inverted
 			if result.Err != nil {
 				resultCh <- checkgroup.Result{Err: result.Err}
+				return
+			}
+			// neither has "not a member" that only means "gave up at the
+			// depth or width limit": the negation is unknown as well
+			if result.Membership != checkgroup.IsMember && cut.Load() {
+				markCut(ctx)
+				resultCh <- checkgroup.Result{Membership: checkgroup.MembershipUnknown}
 				return
 			}
 			// invert result here
@@ -242,7 +275,7 @@ func (e *Engine) checkComputedSubjectSet(
 ) checkgroup.CheckFunc {
 	if restDepth < 0 {
 		e.d.Logger().Debug("reached max-depth, therefore this query will not be further expanded")
-		return checkgroup.UnknownMemberFunc
+		return cutShort
 	}
 
 	e.d.Logger().
@@ -279,7 +312,7 @@ func (e *Engine) checkTupleToSubjectSet(
 ) checkgroup.CheckFunc {
 	if restDepth < 0 {
 		e.d.Logger().Debug("reached max-depth, therefore this query will not be further expanded")
-		return checkgroup.UnknownMemberFunc
+		return cutShort
 	}
 
 	e.d.Logger().
